@@ -25,6 +25,8 @@ package detection
 //@   ensures [C05.hash] result == topoHash(topo)
 
 //@ func MatchCalls
+//@   protocol-only C10
+//@   deterministic C10
 //@   requires topo != nil
 //@   ensures [C08.veto] [C05.veto] (exists j in 0..len(required) :: !occurs(topo, required[j])) <==> len(missing) > 0
 //@   ensures [C08.range] [C05.range] unit(score)
@@ -35,6 +37,8 @@ package detection
 //@   loop 2 invariant forall k in #visited :: !contains(k, req)
 
 //@ func MatchStrings
+//@   protocol-only C10
+//@   deterministic C10
 //@   requires topo != nil
 //@   ensures [C08.range] [C05.range] unit(score)
 //@   ensures [C05.strings] len(patterns) > 0 && (forall j in 0..len(patterns) :: patOccurs(topo, patterns[j])) ==> score == 1.0
@@ -49,6 +53,8 @@ package detection
 //@   loop 1 invariant forall j in 0..len(scores) :: unit(scores[j])
 
 //@ func MatchSignature
+//@   protocol-only C10
+//@   deterministic C10
 //@   requires wfTopo(topo) && wfSig(sig) && !isNaN(entropyTolerance) && entropyTolerance >= 0
 //@   ensures [C08.range] unit(result.Confidence)
 //@   ensures [C08.veto] !allOccur(topo, sig) ==> result.Confidence == 0.0
